@@ -610,6 +610,14 @@ def check_C04(ctx):
     f = timingenc_cases(ctx, "AlphaVel", "GensModes", 3 if thorough else 2)
     summ = harness(ctx, ["timingcodec", "replay", "--prop", "C04"], cases_file=f, name="timingcodec", timeout=3600)
     report_mismatches(ctx, summ, "the encoder writes a timing line its own decoder rejects / loses a timing point")
+    # the encoder as a state machine over emitted lines; the encoded text of real maps is its trace
+    for m in ("Encoder", "Trace_Encoder"):
+        sany(ctx, m)
+    tlc(ctx, "Encoder", "MC_Encoder", dict(spec="ESpec", invariants=["Wellformed", "OnlyAccepted"], constants=dict(MaxRecords="2")),
+        workers=4, timeout=600)
+    trace_step(ctx, "Trace_Encoder", "Trace_Encoder", dict(spec="TrSpec", postcondition="Accepted", constants=dict(MaxRecords="0")),
+               ["encoder", "trace", "--tier", ctx.tier],
+               "the encoder's output is not a behaviour of Encoder.tla (header order / uniqueness / a rejected record)", "encoder-trace")
     # every encoded line of real and generated maps is fed back to its section parser
     summ = harness(ctx, ["encoder", "relations", "--prop", "C04", "--tier", ctx.tier], name="encoder-rel", timeout=7000)
     report_mismatches(ctx, summ, "the encoder's output is not accepted line by line / loses records")
